@@ -10,7 +10,12 @@ from lazy_object_proxy import Proxy
 
 from spec_classes.types import MISSING, Attr
 from spec_classes.utils.method_builder import MethodBuilder
-from spec_classes.utils.mutation import mutate_attr, mutate_value, prepare_attr_value
+from spec_classes.utils.mutation import (
+    mutate_attr,
+    mutate_value,
+    prepare_attr_value,
+    protect_via_deepcopy,
+)
 
 from .base import AttrMethodDescriptor
 
@@ -115,16 +120,20 @@ class UpdateAttrMethod(AttrMethodDescriptor):
     ):
         if not _if:
             return self
+        value = mutate_value(
+            old_value=Proxy(lambda: getattr(self, attr_spec.name, MISSING)),
+            new_value=_new_value,
+            constructor=attr_spec.constructor,
+            expected_type=attr_spec.type,
+            attrs=attrs,
+        )
+        if not _inplace and value is getattr(self, attr_spec.name, MISSING):
+            # Nothing to update: the copy still gets a value of its own.
+            value = protect_via_deepcopy(value)
         return WithAttrMethod.with_attr(
             attr_spec,
             self,
-            _new_value=mutate_value(
-                old_value=Proxy(lambda: getattr(self, attr_spec.name, MISSING)),
-                new_value=_new_value,
-                constructor=attr_spec.constructor,
-                expected_type=attr_spec.type,
-                attrs=attrs,
-            ),
+            _new_value=value,
             _inplace=_inplace,
         )
 
@@ -197,16 +206,20 @@ class TransformAttrMethod(AttrMethodDescriptor):
     ):
         if not _if:
             return self
+        value = mutate_value(
+            old_value=Proxy(lambda: getattr(self, attr_spec.name, MISSING)),
+            transform=_transform,
+            constructor=attr_spec.constructor,
+            expected_type=attr_spec.type,
+            attr_transforms=attr_transforms,
+        )
+        if not _inplace and value is getattr(self, attr_spec.name, MISSING):
+            # Nothing was transformed: the copy still gets a value of its own.
+            value = protect_via_deepcopy(value)
         return WithAttrMethod.with_attr(
             attr_spec,
             self,
-            _new_value=mutate_value(
-                old_value=Proxy(lambda: getattr(self, attr_spec.name, MISSING)),
-                transform=_transform,
-                constructor=attr_spec.constructor,
-                expected_type=attr_spec.type,
-                attr_transforms=attr_transforms,
-            ),
+            _new_value=value,
             _inplace=_inplace,
         )
 
